@@ -28,7 +28,7 @@ def run_witnesses():
                            stderr=subprocess.STDOUT, text=True, timeout=1500)
         out = r.stdout
         res = {}
-        for m in re.finditer(r"^test (src/lib\.rs - \S+ \(line \d+\)( - compile fail)?) \.\.\. (ok|FAILED)", out, re.M):
+        for m in re.finditer(r"^test (src/lib\.rs - \S+ \(line \d+\)( - compile fail| - compile)?) \.\.\. (ok|FAILED)", out, re.M):
             res[m.group(1)] = m.group(3)
         if not res:
             raise AnalysisError("witness crate did not build/run:\n" + out[-3000:])
@@ -36,3 +36,23 @@ def run_witnesses():
     finally:
         shutil.rmtree(d, ignore_errors=True)
         shutil.rmtree(tgt, ignore_errors=True)
+
+
+EXPECT = {"W1": (2, 1, "SparseMatrix's mirrored lists are private: outside code cannot write them (E0616); the public mutators compile"),
+          "W2": (1, 1, "a GF2 other than 0/1 cannot be constructed from outside (E0603); Zero/One/arithmetic compile"),
+          "W3": (1, 1, "ChannelType is sealed: no outside noise type can be added (E0277); the two provided ones compile")}
+
+
+def check_witnesses(ck, rule, which):
+    """thorough tier: each named witness must have its compile_fail doctests failing with the stated error code and its
+    compile-only twin building, against the analysed tree"""
+    res = run_witnesses()
+    for w in which:
+        nfail, ntwin, what = EXPECT[w]
+        mine = {k: v for k, v in res.items() if (" - " + w) in k}
+        cf = [k for k in mine if k.endswith("compile fail")]
+        tw = [k for k in mine if not k.endswith("compile fail")]
+        ok = len(cf) == nfail and len(tw) == ntwin and all(v == "ok" for v in mine.values())
+        ck.inst(rule, "witness:" + w, ok, "witness/src/lib.rs", "%s [%d compile_fail ok, %d twin ok%s]" % (
+            what, sum(1 for k in cf if mine[k] == "ok"), sum(1 for k in tw if mine[k] == "ok"),
+            "" if ok else "; results: %s" % mine))
